@@ -65,6 +65,7 @@ func main() {
 	repo := flag.String("repo", "/repo", "repository root")
 	out := flag.String("out", "", "output directory for rewritten files and overlay.json")
 	static := flag.String("static", "", "directory with <pkg>/*.go files to add to repo packages")
+	mapTo := flag.String("mapto", "", "overlay keys use this root instead of -repo (to check a scratch worktree while the module replace points at /repo); implies emitting every file")
 	flag.Parse()
 	if *out == "" {
 		fatal("need -out")
@@ -108,7 +109,7 @@ func main() {
 				fmt.Fprintf(os.Stderr, "rewrite: %s: %s\n", name, e)
 				nerr++
 			}
-			if !changed {
+			if !changed && *mapTo == "" {
 				continue
 			}
 			var buf bytes.Buffer
@@ -121,7 +122,11 @@ func main() {
 			if err := os.WriteFile(dst, buf.Bytes(), 0o644); err != nil {
 				fatal(err.Error())
 			}
-			overlay[name] = dst
+			key := name
+			if *mapTo != "" {
+				key = filepath.Join(*mapTo, relFile)
+			}
+			overlay[key] = dst
 		}
 	}
 	if nerr > 0 {
@@ -133,7 +138,11 @@ func main() {
 				return nil
 			}
 			rel, _ := filepath.Rel(*static, path)
-			overlay[filepath.Join(*repo, filepath.Dir(rel), "zz_verif_"+filepath.Base(rel))] = path
+			root := *repo
+			if *mapTo != "" {
+				root = *mapTo
+			}
+			overlay[filepath.Join(root, filepath.Dir(rel), "zz_verif_"+filepath.Base(rel))] = path
 			return nil
 		})
 	}
